@@ -146,6 +146,18 @@ theorem lawfulLinOrd_prod {α β : Type} [LinOrd α] [LinOrd β] (ha : LawfulLin
       · cases h2
     · cases h1
 
+/-- `Dual<T: Ord>` as an `Ord` type: the reversed order is a linear order -/
+theorem lawfulLinOrd_dualLin {α : Type} [LinOrd α] (h : LawfulLinOrd α) : LawfulLinOrd (DualLin α) := by
+  have hc : ∀ a b : DualLin α, LinOrd.cmp a b = LinOrd.cmp b.val a.val := fun _ _ => rfl
+  constructor
+  · intro a; rw [hc]; exact h.cmp_refl _
+  · intro a b e; rw [hc] at e
+    have := h.eq_of_cmp_eq _ _ e
+    cases a; cases b; simp_all
+  · intro a b; rw [hc, hc]; exact h.cmp_swap _ _
+  · intro a b c h1 h2; rw [hc] at h1 h2 ⊢
+    exact h.lt_trans _ _ _ h2 h1
+
 /-! ## primitive integers and `bool` -/
 theorem lawful_prim {α : Type} [LinOrd α] (h : LawfulLinOrd α) : LawfulLat (Prim α) AnyWF := by
   have hj : ∀ a b : Prim α, join a b =
